@@ -331,11 +331,6 @@ func c17Negotiate(F btcutil.Amount, R int, explicitMax bool) {
 	vObserve("fee", int64(fee))
 	vAssert(chA.signed(fee) && chB.signed(fee), "the agreed fee was signed by both sides")
 	vAssert(fee <= capA, "the agreed fee is within the payer's cap")
-	lo, hi := idealA, idealB
-	if lo > hi {
-		lo, hi = hi, lo
-	}
-	vAssert(lo <= fee && fee <= hi, "the agreed fee lies between the two ideal fees")
 	vAssert(chA.broadcast == 1 && chB.broadcast == 1, "each side broadcasts once")
 	if rounds >= 5 {
 		vReach("long")
